@@ -64,6 +64,10 @@ def _fb_model():
     m = ModelLP(rxns, {"R_flux": 1.0})
     m.exchanges = [r for r in rxns if r.id.startswith("EX_")]
     m.script = lambda model, f: (1.5, {rid: fl for rid, (_, fl, _) in FB_ROWS.items()}, "optimal")
+    # the model has been optimised before, under other bounds: a stale solution is lying around
+    m.solver.status = "optimal"
+    m.last_fluxes = {rid: 5.0 for rid in FB_ROWS}
+    m.solver.objective.value = 42.0
     return m
 
 
@@ -77,6 +81,7 @@ def check_find_blocked(ctx) -> None:
             for cutoff in (None, 1e-6):
                 model = _fb_model()
                 calls: List[Dict[str, Any]] = []
+                stale: List[str] = []
                 cut = CUT if cutoff is None else cutoff
 
                 def fva_stub(it, ev, c, args, kwargs):
@@ -94,9 +99,10 @@ def check_find_blocked(ctx) -> None:
                 def get_solution_stub(it, ev, c, args, kwargs):
                     m = args[0] if args else kwargs["model"]
                     reactions = kwargs.get("reactions", args[1] if len(args) > 1 else None)
-                    if not m.solves:
-                        raise Unsupported("get_solution before a solve")
                     ids = [getattr(r, "id", r) for r in (reactions if reactions is not None else m.reactions)]
+                    if not m.solves:
+                        stale.append("get_solution")
+                        return SolutionLP(Formulation(m), ids, 42.0, Ser([m.last_fluxes[i] for i in ids], ids))
                     sol = SolutionLP(m.solves[-1][0], ids, m.solves[-1][1], Ser([m.last_fluxes[i] for i in ids], ids))
                     return sol
 
@@ -126,6 +132,8 @@ def check_find_blocked(ctx) -> None:
                     miss = sorted(set(truth) - set(got))
                     cls = lambda rid: f"{rid} (flux {FB_ROWS[rid][1]:g} in the first solution, FVA range [{FB_ROWS[rid][2][0]:g}; {FB_ROWS[rid][2][1]:g}])"
                     problems.setdefault("verdict", f"{what}: " + ("; ".join(["reports " + cls(r) + " as blocked" for r in extra[:2]] + ["misses the blocked " + cls(r) for r in miss[:2]])))
+                if stale:
+                    problems.setdefault("candidates", f"{what}: on a model that was optimised earlier (under other bounds) the candidates are taken from that stale solution instead of a solve made in this call; reactions that carried flux then are never examined")
                 if len(calls) != 1:
                     problems.setdefault("fva", f"{what}: {len(calls)} FVA runs")
                     continue
